@@ -353,6 +353,39 @@ def driveC19 (args : List String) : String :=
     | none => "bad-op"
   | _ => "bad-op"
 
+def userKeyOf (name : String) : Option Nat :=
+  (["int0","int1","int2","int3","str0","str1","str2","str3","ptr"].findIdx? (· == name))
+
+def driveC10 (args : List String) : String :=
+  match args with
+  | ["probe", chain, nested] =>
+    let items := let c := argVal chain "chain"; if c.isEmpty then [] else c.splitOn ","
+    -- a nested call starts from a handler context: incoming metadata, peer, transport stream
+    let base : CtxValues.Ctx := if argVal nested "nested" == "1"
+      then .withValue (.withValue (.withValue .background .incomingMD (.md 100)) .peer (.peerOther 1)) .transportStream (.stsCaller 1)
+      else .background
+    let (caller, _) := items.foldl (fun (acc : CtxValues.Ctx × Nat) it =>
+      let (c, n) := acc
+      if it.startsWith "v:" then
+        match userKeyOf (it.drop 2).toString with
+        | some k => (.withValue c (.user k) (.user k), n)
+        | none => (c, n)
+      else if it == "out" then (.withValue c .outgoingMD (.md 1), n)
+      else if it == "c" then (.withCancel c (n + 1), n + 1)
+      else if it == "dl" then (.withDeadline c 5, n)
+      else (c, n)) (base, 0)
+    let h := CtxValues.handlerCtx caller 0
+    let names := ["int0","int1","int2","int3","str0","str1","str2","str3","ptr"]
+    let vis := (List.range 9).filterMap fun k =>
+      if (CtxValues.value h (.user k)).isSome then names[k]? else none
+    let inn := match CtxValues.value h .incomingMD with | some (.md 1) => "1" | _ => "0"
+    let out := b01 (CtxValues.value h .outgoingMD).isSome
+    let peer := match CtxValues.value h .peer with | some .peerInproc => "inproc" | _ => "other"
+    let sts := match CtxValues.value h .transportStream with | some .stsNew => "new" | _ => "none"
+    let dl := b01 (CtxValues.deadline h).isSome
+    s!"user=[{",".intercalate vis}] in={inn} out={out} peer={peer} sts={sts} dl={dl}"
+  | _ => "bad-op"
+
 def dispatch (line : String) : String :=
   match (line.splitOn " ").filter (· ≠ "") with
   | "C14" :: rest => driveC14 rest
@@ -365,6 +398,7 @@ def dispatch (line : String) : String :=
   | "C17" :: rest => driveC17 rest
   | "C16" :: rest => driveC16 rest
   | "C19" :: rest => driveC19 rest
+  | "C10" :: rest => driveC10 rest
   | _ => "bad-op"
 
 partial def loop (h : IO.FS.Stream) (out : IO.FS.Stream) : IO Unit := do
